@@ -425,3 +425,172 @@ func mapFieldAddr(v ssa.Value) *ssa.FieldAddr {
 	}
 	return nil
 }
+
+// ---------------------------------------------------------------------------------------------
+// R8.15 / R3.16 — a label that a renumber introduces is mapped to 0 ("not a supervoxel") only
+// behind a lookup showing that no supervoxel with that id is mapped: in the live path the label
+// is the one the function has just mapped supervoxels *to*; in the replay it is the Newlabel of a
+// RenumberOp record.
+
+func init() {
+	reg := func(id, prop string) {
+		register(ruleDef{ID: id, Prop: prop, Tier: "quick", Floor: 3,
+			Title: "a label introduced by a renumber is zero-mapped only behind a mapping lookup of that label: every setMapping(v, L, 0) in labelmap whose L is also the target of another setMapping in the same function, or is the Newlabel of a RenumberOp, lies on a branch decided by a VCache lookup of L (live path and log replay alike)",
+			Fn:    ruleZeroMappingGuarded})
+	}
+	reg("R8.15", "C08")
+	reg("R3.16", "C03")
+}
+
+func ruleZeroMappingGuarded(r *Run) {
+	w := r.W
+	isVCacheMethod := func(c ssa.CallInstruction, name string) bool {
+		callee := staticCallee(c)
+		if callee == nil || callee.Signature.Recv() == nil || relPkg(pkgPathOf(callee)) != "datatype/labelmap" {
+			return false
+		}
+		if !strings.HasSuffix(callee.Signature.Recv().Type().String(), "labelmap.VCache") {
+			return false
+		}
+		return name == "" || callee.Name() == name
+	}
+	fromRenumberOp := func(v ssa.Value) bool {
+		for d := range dataDeps(v) {
+			var fa *ssa.FieldAddr
+			switch x := d.(type) {
+			case *ssa.FieldAddr:
+				fa = x
+			case *ssa.Call:
+				if callee := x.Call.StaticCallee(); callee != nil && callee.Name() == "GetNewlabel" && callee.Signature.Recv() != nil && strings.HasSuffix(callee.Signature.Recv().Type().String(), "proto.RenumberOp") {
+					return true
+				}
+			}
+			if fa != nil {
+				name, _, _ := fieldName(fa)
+				if name == "Newlabel" && strings.Contains(fa.X.Type().String(), "proto.RenumberOp") {
+					return true
+				}
+			}
+		}
+		return false
+	}
+	sites, zeros := 0, 0
+	for _, f := range w.RepoFuncs {
+		if relPkg(pkgPathOf(f)) != "datatype/labelmap" || len(f.Blocks) == 0 || strings.HasSuffix(w.fposFile(f), "_test.go") {
+			continue
+		}
+		var sets []ssa.CallInstruction
+		for _, c := range calls(f) {
+			if isVCacheMethod(c, "setMapping") && len(c.Common().Args) == 4 {
+				sets = append(sets, c)
+			}
+		}
+		if len(sets) == 0 {
+			continue
+		}
+		targets := map[string]bool{}
+		for _, c := range sets {
+			to := c.Common().Args[3]
+			if k, ok := constInt(to); ok && k == 0 {
+				continue
+			}
+			targets[coordKey(to)] = true
+		}
+		k := 0
+		for _, c := range sets {
+			sites++
+			to := c.Common().Args[3]
+			if kk, ok := constInt(to); !ok || kk != 0 {
+				continue
+			}
+			zeros++
+			from := c.Common().Args[2]
+			key := coordKey(from)
+			why := ""
+			if targets[key] {
+				why = "the label the function maps supervoxels to"
+			} else if fromRenumberOp(from) {
+				why = "the Newlabel of a replayed RenumberOp"
+			}
+			if why == "" {
+				continue
+			}
+			// a label that every caller takes from the label allocator is above every existing id
+			if targets[key] && freshAtEveryCallSite(w, f, from) {
+				r.note("R8.15: %s zero-maps a label that every caller takes from the label allocator", fname(f))
+				continue
+			}
+			k++
+			// guard: a dominating If whose condition depends on a VCache lookup of the same label and
+			// from which the function can finish without passing the zero mapping
+			guarded := false
+			for _, b := range f.Blocks {
+				ifi, ok := b.Instrs[len(b.Instrs)-1].(*ssa.If)
+				if !ok || !b.Dominates(c.Block()) || b == c.Block() {
+					continue
+				}
+				if findPath(f, ifi, func(x ssa.Instruction) bool { return x == c.(ssa.Instruction) }, func(x ssa.Instruction) bool { _, isRet := x.(*ssa.Return); return isRet }, allEdges) == nil {
+					continue
+				}
+				for d := range dataDeps(ifi.Cond) {
+					lc, ok := d.(*ssa.Call)
+					if !ok || !isVCacheMethod(lc, "") || isVCacheMethod(lc, "setMapping") {
+						continue
+					}
+					for _, a := range lc.Call.Args {
+						if coordKey(a) == key {
+							guarded = true
+						}
+					}
+				}
+			}
+			r.check(guarded, fmt.Sprintf("%s:zero-mapping#%d", fname(f), k), "the zero mapping of "+why+" is decided by a lookup of that label",
+				"a label introduced by a renumber ("+why+") is mapped to 0 unconditionally: when a supervoxel with that id exists — in the renumbered body or merged into another one — its voxels read as background while the index still counts them", w.pos(c.Pos()))
+		}
+	}
+	r.note("R8.15: %d setMapping sites, %d zero mappings", sites, zeros)
+	r.check(sites >= 10 && zeros >= 5, "labelmap:setMapping-sites", fmt.Sprintf("%d setMapping sites, %d of them zero mappings", sites, zeros), "fewer setMapping sites than confirmed by reading (10, 5 zero mappings): rule needs review", "-")
+}
+
+// freshAtEveryCallSite: v is computed from parameters of f, and at every static call site of f the
+// corresponding argument is computed from a call of the label allocator (newLabel / NewLabel of
+// labelmap.Data).
+func freshAtEveryCallSite(w *World, f *ssa.Function, v ssa.Value) bool {
+	var idx []int
+	for d := range dataDeps(v) {
+		if p, ok := d.(*ssa.Parameter); ok {
+			for i, q := range f.Params {
+				if q == p {
+					idx = append(idx, i)
+				}
+			}
+		}
+	}
+	sites := callSitesOf(w)[f]
+	if len(idx) == 0 || len(sites) == 0 {
+		return false
+	}
+	for _, s := range sites {
+		c, ok := s.(ssa.CallInstruction)
+		if !ok {
+			return false
+		}
+		fresh := false
+		for _, i := range idx {
+			if i >= len(c.Common().Args) {
+				continue
+			}
+			for d := range dataDeps(c.Common().Args[i]) {
+				if ac, ok := d.(*ssa.Call); ok {
+					if callee := ac.Call.StaticCallee(); callee != nil && (callee.Name() == "newLabel" || callee.Name() == "NewLabel") && relPkg(pkgPathOf(callee)) == "datatype/labelmap" {
+						fresh = true
+					}
+				}
+			}
+		}
+		if !fresh {
+			return false
+		}
+	}
+	return true
+}
